@@ -1,6 +1,8 @@
 package main
 
 import (
+	"sync"
+
 	"github.com/Ptt-official-app/go-pttbbs/bbs"
 	"github.com/Ptt-official-app/go-pttbbs/ptttype"
 )
@@ -29,6 +31,57 @@ func init() {
 		case 6: // article id text (any length) -> filename
 			id := bbs.ArticleID(string(ab(args[1])))
 			return okb(id.ToRaw()[:])
+		case 7: // the same conversions from 8 goroutines at once: every answer must be the sequential one
+			ids := make([]ptttype.Aidu, len(args[1]))
+			for i, t := range args[1] {
+				ids[i] = ptttype.Aidu(au(t))
+			}
+			type ans struct{ fn, raw, aid string }
+			conv := func(a ptttype.Aidu) ans {
+				fn := a.ToFN()
+				aid := bbs.ToArticleID(fn)
+				return ans{string(fn[:]), string(aid.ToRaw()[:]), string(aid)}
+			}
+			seq := make([]ans, len(ids))
+			for i, a := range ids {
+				seq[i] = conv(a)
+			}
+			const workers = 8
+			bad := make([]int, workers)
+			first := make([]int, workers)
+			var wg sync.WaitGroup
+			for w := 0; w < workers; w++ {
+				wg.Add(1)
+				go func(w int) {
+					defer wg.Done()
+					defer func() {
+						if r := recover(); r != nil {
+							bad[w] += 1000000 // a panic inside a conversion
+						}
+					}()
+					first[w] = -1
+					for rep := 0; rep < 20; rep++ {
+						for i := range ids {
+							k := (i*7 + w*13 + rep) % len(ids)
+							if conv(ids[k]) != seq[k] {
+								bad[w]++
+								if first[w] < 0 {
+									first[w] = k
+								}
+							}
+						}
+					}
+				}(w)
+			}
+			wg.Wait()
+			total, f := 0, -1
+			for w := 0; w < workers; w++ {
+				total += bad[w]
+				if f < 0 && first[w] >= 0 {
+					f = first[w]
+				}
+			}
+			return ok(oi(int64(total)), oi(int64(f)))
 		}
 		return []string{"9"}
 	}})
